@@ -25,6 +25,13 @@ RawLoader = type('RawLoader', (Loader,), {
     'get_node': yaml.SafeLoader.get_node})
 
 
+# composition proper is PyYAML's (anchors and aliases stay shared nodes),
+# whatever the Loader under test overrides
+for _n, _f in vars(yaml.composer.Composer).items():
+    if callable(_f) and not _n.startswith('__'):
+        setattr(RawLoader, _n, _f)
+
+
 def compose_raw(text):
     return yaml.compose(text, Loader=RawLoader)
 
